@@ -110,7 +110,17 @@ func main() {
 						if j := strings.IndexByte(line, '\n'); j > 0 {
 							line = line[:j]
 						}
+						rest := strings.Split(stderr[i:], "\n")
+						top := ""
+						for _, fl := range rest[1:] {
+							if fl != "" && !strings.HasPrefix(fl, "\t") && !strings.HasPrefix(fl, "goroutine") && !strings.HasPrefix(fl, "[signal") {
+								top = fl
+								break
+							}
+						}
 						switch {
+						case strings.HasPrefix(top, "main."):
+							sig = "harness-panic"
 						case strings.Contains(line, "retire called twice"):
 							sig = "internal-panic:retire-twice"
 						case strings.Contains(line, "non-idle when already done"):
